@@ -73,6 +73,7 @@ type Client struct {
 	recv   []Msg
 	taken  int
 	closed bool // the server closed the connection (reader saw EOF)
+	gone   bool // Close() was called on the client end
 }
 
 // Connect opens a new in-memory connection to a front service: a real
@@ -150,6 +151,14 @@ func (c *Client) SendRaw(b []byte) bool {
 	return err == nil
 }
 
+// Write writes bytes to the connection WITHOUT waiting for quiescence (for
+// harnesses that want several clients' traffic in flight together; call
+// Node.Wait afterwards).
+func (c *Client) Write(b []byte) bool {
+	_, err := c.conn.Write(b)
+	return err == nil
+}
+
 // SendPacket frames body as a packet of the given type with the real encoder.
 func (c *Client) SendPacket(typ packet.Type, body []byte) bool {
 	p, err := c.enc.Encode(typ, body)
@@ -218,6 +227,9 @@ func (c *Client) NetId() uint32 { return c.Session.GetId() }
 
 // Close closes the client end of the connection and waits for quiescence.
 func (c *Client) Close() {
+	c.mu.Lock()
+	c.gone = true
+	c.mu.Unlock()
 	c.conn.Close()
 	synctest.Wait()
 }
